@@ -55,6 +55,9 @@ fn vk_da_assert_oneshot_notified(l: &Layout<'_, 3, 2, u8>, t0: u16, coord: KCoor
 fn vk_da_simple<'a>(action: &'a Action<'a, u8>) -> (Layout<'a, 3, 2, u8>, KCoord, CustomEvent<'a, u8>) {
     let mut l = vk_da_layout(true);
     let t0 = l.oneshot.timeout;
+    // a tap-hold key at (0,2) was tapped before and its tap-repress window is still open
+    l.last_press_tracker.coord = (0, 2);
+    l.last_press_tracker.tap_hold_timeout = kani::any();
     let y: u16 = kani::any();
     // (0,0) is TRIGGER_TAPHOLD_COORD: the reserved coordinate at which chords v2 injects fake events; a no-op there
     // deliberately does not count as the key following a one-shot.  No real key lives at (0,0) (defsrc index 0 is
@@ -65,6 +68,7 @@ fn vk_da_simple<'a>(action: &'a Action<'a, u8>) -> (Layout<'a, 3, 2, u8>, KCoord
     let ev = l.do_action(action, coord, delay, false, &mut std::iter::empty::<u16>());
     vk_da_assert_oneshot_notified(&l, t0, coord);
     assert!(l.oneshot.keys.len() == 1 && l.waiting.is_none() && l.queue.is_empty());
+    assert!(l.last_press_tracker.tap_hold_timeout == 0, "any action of another key closes the tap-repress window of the last tap-hold key (C05: the key must be pressed twice in a row)");
 
     (l, coord, ev)
 }
